@@ -1,3 +1,4 @@
+import IceTie.MuxTcp
 import IceProofs.TcpMuxCauseStep
 import IceProofs.TcpMuxSimEnd
 import IceSpec.C15
@@ -778,5 +779,36 @@ open IceSpec.C15 IceSpec.C15.View in
 example : let m := IceProofs.TcpMux.monAfter {} (traceOf exCfg exSession false)
     (m.clients.map (fun c => (c.target, c.nread, c.closed))) = [(some 0, 2, false), (some 1, 0, true), (none, 0, true)] ∧
     (m.pcs.map (·.isOpen)) = [true, false] := by decide
+
+/-! ## Tie to the code (T, round 3): the first-frame decision `TCPMuxDefault.handleConn` (tcp_mux.go), REGENERATED on every run
+(`IceGen.T_Mux`, effect mode) -/
+
+open IceTie.MuxTcp in
+/-- a new connection is attached (`AddConn` with its first frame, after the unlock) iff the first frame was read, decodes, is a
+Binding message with a USERNAME, the remote host parses, the local address is TCP and the packet conn for (ufrag before the first
+':', family, local IP) exists or could be created; in every other case the connection is closed exactly once and not attached.
+The model's `classify` accepts exactly the `user` frames that fit the first-frame buffer -/
+theorem C15_code_handleConn :
+    (∀ hasTimeout armErr readErr shortBuf disarmErr decodeErr mNil method noUsername hostErr localIsTCP known createErr,
+      IceGen.tcpMux_handleConn hasTimeout armErr readErr shortBuf disarmErr decodeErr mNil method noUsername hostErr localIsTCP known createErr
+        = if readErr then [tcpClose]
+          else c "msg := copy of the first frame" ::
+            (if decodeErr || mNil || method != 1 || noUsername then [tcpClose]
+             else if hostErr then [c "ufrag := USERNAME up to the first ':'", tcpClose]
+             else if !localIsTCP then [c "ufrag := USERNAME up to the first ':'", c "isIPv6 := remote host is not IPv4", tcpClose]
+             else tcpRoute known ++ (if !known && createErr then [tcpClose] else [tcpAdd]))) ∧
+    (∀ hasTimeout armErr readErr shortBuf disarmErr decodeErr mNil method noUsername hostErr localIsTCP known createErr,
+      ((IceGen.tcpMux_handleConn hasTimeout armErr readErr shortBuf disarmErr decodeErr mNil method noUsername hostErr localIsTCP known createErr).count tcpAdd
+        = if tcpAccepted readErr decodeErr mNil method noUsername hostErr localIsTCP known createErr then 1 else 0) ∧
+      ((IceGen.tcpMux_handleConn hasTimeout armErr readErr shortBuf disarmErr decodeErr mNil method noUsername hostErr localIsTCP known createErr).count tcpClose
+        = if tcpAccepted readErr decodeErr mNil method noUsername hostErr localIsTCP known createErr then 0 else 1)) ∧
+    (∀ (f : Frame) (u : String), classify f = some u ↔ f.len ≤ firstFrameMax ∧ f.kind = .user u) :=
+  ⟨handleConn_tie, handleConn_attach_iff, IceTie.MuxTcp.classify_iff⟩
+
+/-- non-vacuity: an accepted first frame for an unknown ufrag creates the packet conn and attaches; a non-Binding method closes -/
+example : IceGen.tcpMux_handleConn true false false false false false false 1 false false true false false
+      = IceTie.MuxTcp.c "msg := copy of the first frame" :: IceTie.MuxTcp.tcpRoute false ++ [IceTie.MuxTcp.tcpAdd] ∧
+    IceGen.tcpMux_handleConn true false false false false false false 3 false false true true false
+      = [IceTie.MuxTcp.c "msg := copy of the first frame", IceTie.MuxTcp.tcpClose] := by decide
 
 end IceProps.C15
